@@ -5,7 +5,7 @@ Spec    spec/WireRR.tla: hand-written layout table (80 type codes = all of dns.T
 MC      MC_WireRR: DecMsg(EncMsg(m)) = frame of m, DecRdata inverts EncRdata for the regular kinds,
         LenMsg = Len(EncMsg), record offsets / packing plan, RCODE split and join, on a small universe.
 GEN     Gen_WireRR modes types / cross / rrhdr / opts / svcb / gateway / nodata / unknown / hdr / rcode /
-        sections / big / compress / orders  ->  harness `wire replay`: Pack() = spec octets; Unpack(spec octets) = message
+        sections / big / compress / orders / empty  ->  harness `wire replay`: Pack() = spec octets; Unpack(spec octets) = message
         (every header bit, count, field); Unpack(spec octets).Pack() = spec octets; PackRR / UnpackRR /
         Rdlength agree; messages the wire format cannot carry must be refused.
 TV      harness `wire record` (random abstract messages over the whole layout -> real Pack / Unpack / re-Pack)
@@ -127,7 +127,7 @@ def run(ctx):
         gen_jobs(ctx, binp, lay, "replay", [
             ("types", 4, s4), ("rrhdr", 1, [0]), ("opts", 1, [0]), ("svcb", 1, [0]), ("gateway", 1, [0]),
             ("nodata", 1, [0]), ("unknown", 1, [0]), ("hdr", 1, [0]), ("rcode", 1, [0]), ("sections", 1, [0]),
-            ("big", 1, [0]), ("compress", 1, [0]), ("orders", 1, [0]), ("cross", 4, [ctx.seed % 4])], tier=0)
+            ("big", 1, [0]), ("compress", 1, [0]), ("orders", 1, [0]), ("empty", 1, [0]), ("cross", 4, [ctx.seed % 4])], tier=0)
         tv(ctx, binp, lay, 2500, 4)
     else:
         ctx.tlc("MC_WireRR", consts={"Scale": 1}, timeout=3000)
@@ -135,7 +135,7 @@ def run(ctx):
         gen_jobs(ctx, binp, lay, "replay", [
             ("hdr", 16, s16), ("rcode", 4, [0, 1, 2, 3]), ("types", 4, [0, 1, 2, 3]), ("cross", 4, [0, 1, 2, 3]),
             ("rrhdr", 1, [0]), ("opts", 1, [0]), ("svcb", 1, [0]), ("gateway", 1, [0]), ("nodata", 1, [0]),
-            ("unknown", 1, [0]), ("sections", 1, [0]), ("big", 1, [0]), ("compress", 4, [0, 1, 2, 3]), ("orders", 1, [0])], tier=1)
+            ("unknown", 1, [0]), ("sections", 1, [0]), ("big", 1, [0]), ("compress", 4, [0, 1, 2, 3]), ("orders", 1, [0]), ("empty", 1, [0])], tier=1)
         tv(ctx, binp, lay, 8000, 16)
     ctx.assumptions += [
         "abstract messages are well-formed in the sense of WireRR!WFMsg: names <= 255 octets, length fields equal to the "
